@@ -107,7 +107,27 @@ class C07(Prop):
              'chunks': [list(ref_frame(MAGIC, b'block', bytes(100)))], 'meta': {'msgs': [[list(b'block'), [0] * 100]], 'corrupt': None}},
             {'kind': 'run', 'magic': list(MAGIC), 'maxp': 50, 'maxb': 120,
              'chunks': [list(ref_frame(MAGIC, b'blocks', bytes(51)))], 'meta': {'msgs': None, 'corrupt': 'len'}},
-        ]
+        ] + self.big_cases()
+
+    @staticmethod
+    def big_cases():
+        """payloads of 64 KiB and more, arriving in pieces whose boundaries fall at every interesting place:
+        header apart, the last byte of the payload the last byte of a chunk, the next message glued on"""
+        out = []
+        for size in (65535, 65536, 70000, 131075):
+            p1 = bytes((i * 7 + size) % 256 for i in range(size))
+            p2 = b'tail'
+            f1, f2 = ref_frame(MAGIC, b'tx', p1), ref_frame(MAGIC, b'ping', p2)
+            stream = f1 + f2
+            n1 = len(f1)
+            for cuts in ([n1], [24, n1], [24, 24 + size // 2, n1], [10, 24 + 1000, 24 + size - 1, n1], [24 + size // 3, n1 + 5],
+                         [24, 24 + 65536, n1] if size > 65536 else [24, 24 + size - 3, n1], []):
+                idx = [0] + sorted(set(c for c in cuts if 0 < c < len(stream))) + [len(stream)]
+                chunks = [stream[a:b] for a, b in zip(idx, idx[1:])]
+                out.append({'kind': 'run', 'magic': list(MAGIC), 'maxp': 2000000, 'maxb': 128000000,
+                            'chunks': [list(c) for c in chunks], 'big': True,
+                            'meta': {'msgs': [[list(b'tx'), list(p1)], [list(b'ping'), list(p2)]], 'corrupt': None}})
+        return out
 
     def generate(self, rng, n, tier):
         for i in range(n):
@@ -173,8 +193,8 @@ class C07(Prop):
         return f"(PP {c_bytes(bytes(case['magic']))} {c_N(case['maxp'])} {c_N(case['maxb'])})"
 
     def coq_case(self, case, obs):
-        if case.get('session'):
-            return None
+        if case.get('session') or case.get('big'):
+            return None          # (big: hundreds of kB per case - the reference reader in the oracle decides)
         if case['kind'] == 'frame':
             o = 'None' if obs['framed'] is None else f"(Some {c_bytes(bytes(obs['framed']))})"
             return f"CFrame {self._P(case)} {c_bytes(bytes(case['cmd']))} {c_bytes(bytes(case['payload']))} {o}"
